@@ -36,16 +36,46 @@ func distinctLoads(evs []lib.TravEvent) []string {
 	return out
 }
 
-func runPair(out *lib.Out, rng *lib.Rng, base string, tc *lib.TravCase, thorough bool) {
+// pick returns the values 0..n, all of them when there are at most max, else max of them spread evenly
+// (always including 0, n-1 and n).
+func pick(n, max int) []int {
+	var out []int
+	if n+1 <= max {
+		for i := 0; i <= n; i++ {
+			out = append(out, i)
+		}
+		return out
+	}
+	last := -1
+	for k := 0; k < max-2; k++ {
+		i := k * (n - 1) / (max - 3)
+		if i != last {
+			out = append(out, i)
+			last = i
+		}
+	}
+	return append(out, n)
+}
+
+// runPair returns false when the unrestricted walk is too long to be used (the caller draws another pair).
+func runPair(out *lib.Out, rng *lib.Rng, base string, tc *lib.TravCase, thorough bool) bool {
 	env, err := tc.Open()
 	if err != nil {
 		panic(fmt.Sprintf("%s: %v", base, err))
 	}
 	if env.SelErr != nil {
 		out.Case(base+".u", "c15", tc.Sel.Text(), tc.Root.Text(), tc.BlocksText(), "u", "compile:"+env.CompileClass())
-		return
+		return true
 	}
 	uevs, uclass := env.Run(lib.NoCtl(), false)
+	if len(uevs) > 250 {
+		return false
+	}
+	// every setting for walks of up to 40 events; an evenly spread sample of settings beyond that
+	maxSet := 1 << 30
+	if len(uevs) > 40 {
+		maxSet = 10
+	}
 	utext := lib.TraceText(uevs, uclass, true)
 	out.Case(base+".u", "c15", tc.Sel.Text(), tc.Root.Text(), tc.BlocksText(), "u", "U"+utext+"#R"+utext)
 	nv, nl := 0, 0
@@ -57,12 +87,12 @@ func runPair(out *lib.Out, rng *lib.Rng, base string, tc *lib.TravCase, thorough
 		}
 	}
 	// every node budget 0 .. |U|+1, every link budget 0 .. loads+1
-	for n := 0; n <= nv+1; n++ {
+	for _, n := range pick(nv+1, maxSet) {
 		c := lib.NoCtl()
 		c.NodeBudget = int64(n)
 		emit(out, fmt.Sprintf("%s.nb%d", base, n), tc, env, c, utext)
 	}
-	for n := 0; n <= nl+1; n++ {
+	for _, n := range pick(nl+1, maxSet) {
 		c := lib.NoCtl()
 		c.LinkBudget = int64(n)
 		emit(out, fmt.Sprintf("%s.lb%d", base, n), tc, env, c, utext)
@@ -77,8 +107,12 @@ func runPair(out *lib.Out, rng *lib.Rng, base string, tc *lib.TravCase, thorough
 		}
 	}
 	step := 1
-	if !thorough && len(starts) > 16 {
-		step = (len(starts) + 15) / 16
+	if len(starts) > 16 || maxSet < len(starts) {
+		lim := 16
+		if maxSet < lim {
+			lim = maxSet
+		}
+		step = (len(starts) + lim - 1) / lim
 	}
 	for i := 0; i < len(starts); i += step {
 		c := lib.NoCtl()
@@ -104,7 +138,7 @@ func runPair(out *lib.Out, rng *lib.Rng, base string, tc *lib.TravCase, thorough
 				masks = append(masks, m)
 			}
 		} else {
-			for i := 0; i < 8; i++ {
+			for i := 0; i < 8 && i < maxSet; i++ {
 				masks = append(masks, 1+rng.Intn((1<<len(dl))-1))
 			}
 		}
@@ -133,6 +167,7 @@ func runPair(out *lib.Out, rng *lib.Rng, base string, tc *lib.TravCase, thorough
 		}
 		emit(out, base+".x2", tc, env, c, utext)
 	}
+	return true
 }
 
 func mustVal(s string) *lib.Val {
@@ -220,9 +255,16 @@ func main() {
 	rng := lib.NewRng(fl.Seed)
 	corpus(out, rng, thorough)
 	for i := 0; i < n; i++ {
-		tc := lib.GenTravGraph(rng)
-		sg := &lib.SelGen{R: rng, Cids: tc.AllCids(), Keys: tc.AllKeys(), MaxDepth: 1 + rng.Intn(5), BadPct: 1, BareEdgePct: 3}
-		tc.Sel = sg.Top()
-		runPair(out, rng, fmt.Sprintf("p%d", i), tc, thorough)
+		for {
+			tc := lib.GenTravGraph(rng)
+			sg := &lib.SelGen{R: rng, Cids: tc.AllCids(), Keys: tc.AllKeys(), MaxDepth: 1 + rng.Intn(5), BadPct: 1, BareEdgePct: 3}
+			tc.Sel = sg.Top()
+			if !lib.TravInteresting(rng, tc) {
+				continue
+			}
+			if runPair(out, rng, fmt.Sprintf("p%d", i), tc, thorough) {
+				break
+			}
+		}
 	}
 }
